@@ -284,12 +284,25 @@ func (s *LSpec) RefLex(input []byte, tokNum func(int) int, maxToks int) string {
 			start = -1
 		}
 		if p == pos {
-			if pos == len(rs) {
-				out = append(out, fmt.Sprintf("EOF@%d", start))
-				return strings.Join(out, " ") + " ok"
+			// nothing consumed. A rule that matches the empty string and carries a mode action matches here
+			// (also at the end of the input): its actions take effect, the lexer goes on in the new mode.
+			// (An empty-matchable rule WITHOUT a mode action would match for ever: known finding K3; the
+			// generators never write one.)
+			w0 := n.winner(set)
+			modeChange := false
+			if w0 >= 0 {
+				for _, a := range s.Modes[mode].Rules[w0].Acts {
+					modeChange = modeChange || a.Kind == "push" || a.Kind == "pop"
+				}
 			}
-			fail()
-			continue
+			if !modeChange {
+				if pos == len(rs) {
+					out = append(out, fmt.Sprintf("EOF@%d", start))
+					return strings.Join(out, " ") + " ok"
+				}
+				fail()
+				continue
+			}
 		}
 		w := n.winner(set)
 		if w < 0 {
